@@ -53,7 +53,7 @@ ASSUMPTIONS = [
 ]
 BUDGET = {
     "quick": dict(cases=324, shards=4, timeout=600),
-    "thorough": dict(cases=3006, shards=16, timeout=3000),
+    "thorough": dict(cases=1512, shards=16, timeout=3000),
 }
 SCHEDULE = [
     "fixed_lens", "fixed_nolens", "ali_padded", "ali_full", "ref_bounded", "ref_unbounded",
@@ -79,14 +79,14 @@ FLOORS = {
         "distinct": 350,
     },
     "thorough": {
-        "events": {"slice_spect_data": 400000, "SliceSpectData": 40000,
-                   "chunk_token_sequences_by_slices": 50000, "ChunkTokenSequencesBySlices": 8000,
-                   "chunk-torch-spect-data-dir": 3000, "validate_spect_data_set(chunked)": 2000,
-                   "assert:windows": 150000, "assert:token-selection": 50000, "assert:dir-windows": 10000},
-        "classes": dict({c: 1000 for c in CLASSES}, exhaustive_ali=3 ** 7 + 3 ** 6),
-        "stats": {"hooked:SliceSpectData": 30, "hooked:ChunkTokenSequencesBySlices": 2},
-        "sets": {"slice_config": 36, "dir_config": 100},
-        "distinct": 15000,
+        "events": {"slice_spect_data": 250000, "SliceSpectData": 25000,
+                   "chunk_token_sequences_by_slices": 30000, "ChunkTokenSequencesBySlices": 5000,
+                   "chunk-torch-spect-data-dir": 1500, "validate_spect_data_set(chunked)": 1000,
+                   "assert:windows": 80000, "assert:token-selection": 25000, "assert:dir-windows": 5000,
+                   "assert:observed-output": 40},
+        "classes": dict({c: 600 for c in CLASSES}, exhaustive_ali=3 ** 7 + 3 ** 6, repo_test_call=40),
+        "sets": {"slice_config": 36, "dir_config": 66},
+        "distinct": 6000,
     },
 }
 EXHAUSTIVE = {"thorough": False}
@@ -443,7 +443,8 @@ def _exec_slice(case, mon):
         mon.check(bool(match), "windows", config=cfg, observed_slices=got_w, observed_sources=got_s,
                   expected={k: {"slices": w, "sources": s} for k, (w, s) in readings.items()},
                   in_lens=case["in_lens"], other_lens=case["other_lens"])
-        mon.stat("reading:" + match[0].split("/")[0])
+        for kind in sorted({k.split("/")[0] for k in match}):
+            mon.stat("explained_by_reading:" + kind)
         mon.stat("windows_prescribed", len(got_w))
         nontrivial = nontrivial or bool(got_w)
         if "documented" in case:
@@ -677,7 +678,8 @@ def _exec_dir(case, mon):
             mon.check(bool(match), "dir-windows", utt=u["id"], length=T, observed=windows,
                       expected={k: [list(w) for w in ws] for k, ws in readings.items()},
                       config=dict(policy=policy, window_type=wt, valid_only=valid, lobe_size=lobe))
-            mon.stat("dir_reading:" + match[0])
+            for kind in sorted({k.split("/")[0] for k in match}):
+                mon.stat("dir_explained_by_reading:" + kind)
             if valid:
                 mon.check(all(0 <= a < b <= T for a, b in windows), "dir-valid-inside", utt=u["id"], length=T,
                           observed=windows)
